@@ -171,8 +171,20 @@ class MemEngine(object):
                         self.c.buffer_size, win, xy[0], xy[1], p, addr, data)
         else:
             name = "write(%#x,%d,%r,p=%d)" % (addr, n, xy, p)
+            # the bytes as the caller may hold them
+            # (the documentation says `bytes`; a bytearray or a memoryview
+            # of bytes slices and packs the same way)
+            form = t.weighted([5, 1, 1])
+            given = data
+            if form == 1:
+                given = bytearray(data)
+            elif form == 2:
+                given = memoryview(data)
+            if form:
+                self.w.probe("write_data_form")
+                name += " as %s" % type(given).__name__
             self.run_op(name, (xy, p, addr, data), self.c.mc.write, addr,
-                        data, xy[0], xy[1], p)
+                        given, xy[0], xy[1], p)
 
     def note(self, addr, n, p):
         w = self.w
